@@ -168,9 +168,9 @@ package kv
 //@   modifies lists
 //@   ensures lists > old(lists) && puts == old(puts) && deletes == old(deletes)
 //@   ensures imp(err != nil, result0 == nil)
-//@   loop 2 invariant lists >= old(lists) && puts == old(puts) && deletes == old(deletes)
-//@   loop 1 invariant -1 <= rangeindex && rangeindex < len(out.Contents) && lists > old(lists) && puts == old(puts) && deletes == old(deletes) && out != nil && out.IsTruncated != nil
-//@   loop 1 invariant forall j int :: imp(0 <= j && j < len(out.Contents), out.Contents[j] != nil && out.Contents[j].Key != nil)
+//@   loop 1 invariant lists >= old(lists) && puts == old(puts) && deletes == old(deletes)
+//@   loop 2 invariant -1 <= rangeindex && rangeindex < len(out.Contents) && lists > old(lists) && puts == old(puts) && deletes == old(deletes) && out != nil && out.IsTruncated != nil
+//@   loop 2 invariant forall j int :: imp(0 <= j && j < len(out.Contents), out.Contents[j] != nil && out.Contents[j].Key != nil)
 //@ func listRoots
 //@   requires S3 != nil && rootPersist != nil
 //@   modifies lists
